@@ -366,7 +366,29 @@ func (x *pexec) setup() {
 	x.bc = x.parser.BufferConfig()
 	if x.spec.Target == "wrap" {
 		x.rd = NewSimReader(x.t.Input[x.cursor:], x.spec.Plan, x.res.Fired)
-		x.wp = lz.Wrap(x.rd, x.parser)
+		if k := x.spec.PreUse; k > 0 {
+			// a parser that was used before: Reset of the wrapper has to put it
+			// into its initial state
+			junk := make([]byte, k)
+			for i := range junk {
+				junk[i] = byte(i*37+11) % 5
+			}
+			pn, hang := x.call(x.budget(k), func() {
+				x.parser.Write(junk)
+				if k%2 == 0 {
+					var b lz.Block
+					x.parser.Parse(&b, 0)
+				}
+				x.wp = lz.Wrap(nil, x.parser)
+				x.wp.Reset(x.rd)
+			})
+			if pn != "" {
+				x.libPanic("Wrap/Reset of a used parser", pn, hang, "C16", "C08")
+			}
+			x.probe("wrap_of_used_parser")
+		} else {
+			x.wp = lz.Wrap(x.rd, x.parser)
+		}
 	}
 }
 
@@ -689,6 +711,9 @@ func (x *pexec) doParse(op *Op, wrapped bool) string {
 	}
 	if unparsed == 0 {
 		x.fail("C03", "block_from_nothing", "", "%s returned n=%d, nil although no unparsed data is buffered (overlap: parser advanced less than it reported)", name, n)
+		if wrapped {
+			x.fail("C08", "bytes_not_from_reader", "", "WParse returned a block of %d bytes although every byte the reader has handed out (%d) was already delivered", n, x.rd.HandedOut())
+		}
 		x.abort("model and parser disagree about the parse position")
 	}
 	limit := unparsed
